@@ -206,6 +206,18 @@ func RunCases(r *evid.Run, spec CheckSpec, cases []Case) {
 			}
 		}
 	})
+	// VRF beacon support: a run whose case list has histories on the VRF backend must have seen VRF
+	// epochs, accepted proofs and elections under VRF; otherwise it observed nothing of that part.
+	if n := r.Counter("histories_with_vrf"); n > 0 && r.ReplayFile == "" {
+		for _, k := range []string{"vrf.epochs", "vrf.proofs_accepted", "vrf.elections_checked", "vrf.epochs_with_weak_alpha", "vrf.epochs_with_high_quality_alpha"} {
+			if r.Counter(k) == 0 {
+				r.Inconclusive("%d histories ran on the VRF beacon backend but the counter %s is zero", n, k)
+			}
+		}
+		if r.Counter("histories_with_vrf_and_runtime") >= 6 && r.Counter("vrf.committees_elected") == 0 {
+			r.Inconclusive("%d histories ran on the VRF beacon backend with a compute runtime but no committee was elected under VRF", r.Counter("histories_with_vrf_and_runtime"))
+		}
+	}
 	for _, rr := range evid.RaceReports(raceDir + "/c") {
 		r.Violation("race/"+raceKey(rr.Key), "data race reported by the Go race detector", map[string]any{"report": rr.Text, "count": rr.Count})
 	}
